@@ -173,6 +173,128 @@ theorem reset_frame (st : State) (wf : C04.TableWF st.lnode) (h : Nat) (env : En
     · exact hf.1
     · rw [hf.2 y hne]; exact hacc
 
+/-- `DeleteSess` of a session recorded with the node: afterwards its SEID resolves to nothing -/
+theorem deleteSess_sweeps (st : State) (wf : C04.TableWF st.lnode) (h : Nat) (x : Seid) (env : Env) (c : Ctx)
+    (hm : x ∈ (st.nodes.getD h default).sess) : (st.deleteSess h x env c).1.lnode.lookup x = none := by
+  unfold State.deleteSess
+  simp only [hm, not_true_eq_false, if_false]
+  split
+  · rename_i hl; exact hl
+  · rename_i s hl
+    generalize s.close c = R
+    obtain ⟨s', c', rs⟩ := R
+    simp only []
+    have hl' : st.lnode.lookup x = some s := hl
+    exact (C04.release_lookup st.lnode wf x s hl').1
+
+theorem deleteSess_none_stays (st : State) (h : Nat) (x : Seid) (env : Env) (c : Ctx)
+    (hn : st.lnode.lookup x = none) : (st.deleteSess h x env c).1.lnode.lookup x = none := by
+  unfold State.deleteSess
+  simp only []
+  split
+  · exact hn
+  · split
+    · exact hn
+    · rename_i s hl
+      have hl' : st.lnode.lookup x = some s := hl
+      rw [hn] at hl'; cases hl'
+
+/-- what `DeleteSess` does to the node's session set: the deleted id goes, every other id stays -/
+theorem deleteSess_nodeSet (st : State) (h : Nat) (x z : Seid) (env : Env) (c : Ctx) (hh : h < st.nodes.length)
+    (hz : z ∈ (st.nodes.getD h default).sess) (hne : z ≠ x) :
+    z ∈ ((st.deleteSess h x env c).1.nodes.getD h default).sess ∧ h < (st.deleteSess h x env c).1.nodes.length := by
+  have key : ∀ (st' : State), st'.nodes = st.nodes.modify h (fun n => { n with sess := n.sess.filter (· != x) }) →
+      z ∈ (st'.nodes.getD h default).sess ∧ h < st'.nodes.length := by
+    intro st' e
+    rw [e]
+    refine ⟨?_, by simpa using hh⟩
+    simp only [List.getD, List.getElem?_modify, hh, List.getElem?_eq_getElem, if_true, Option.map_some, Option.getD_some]
+    have hz' : z ∈ (st.nodes[h]).sess := by
+      simpa [List.getD, List.getElem?_eq_getElem, hh] using hz
+    simp [List.mem_filter, hz', hne]
+  unfold State.deleteSess
+  simp only []
+  split
+  · exact ⟨hz, hh⟩
+  · split
+    · exact key _ rfl
+    · rename_i s hl
+      generalize s.close c = R
+      obtain ⟨s', c', rs⟩ := R
+      exact key _ rfl
+
+/-- **re-association sweeps the node's sessions**: after `RemoteNode.Reset`, every SEID that was in the node's set resolves
+    to nothing — whatever order the sessions are closed in and whatever the data plane answers; together with `reset_frame`
+    (no other SEID is touched) this is the re-association clause of C04 / C05 -/
+theorem reset_sweeps (st : State) (wf : C04.TableWF st.lnode) (h : Nat) (env : Env) (c : Ctx) (hh : h < st.nodes.length)
+    (x : Seid) (hx : x ∈ (st.nodes.getD h default).sess) :
+    (st.resetNode h env c).1.lnode.lookup x = none := by
+  unfold State.resetNode
+  simp only []
+  have hall : ∀ z ∈ (st.nodes.getD h default).sess, z ∈ arrange (st.nodes.getD h default).sess env.sessOrder := by
+    intro z hz
+    unfold arrange
+    by_cases hin : z ∈ env.sessOrder
+    · exact List.mem_append.mpr (Or.inl (List.mem_filter.mpr ⟨List.mem_eraseDups.mpr hin, by simpa using hz⟩))
+    · exact List.mem_append.mpr (Or.inr (List.mem_filter.mpr ⟨hz, by simpa using hin⟩))
+  have hxo := hall x hx
+  generalize arrange (st.nodes.getD h default).sess env.sessOrder = order at hxo
+  -- invariant: table well-formed; x is either still in the node's set (and still to come) or resolves to nothing
+  suffices ∀ (order : List Seid) (acc : State × Ctx), C04.TableWF acc.1.lnode → h < acc.1.nodes.length →
+      ((x ∈ order ∧ x ∈ (acc.1.nodes.getD h default).sess) ∨ acc.1.lnode.lookup x = none) →
+      (order.foldl (fun (acc : State × Ctx) y =>
+        ((acc.1.deleteSess h y env acc.2).1, (acc.1.deleteSess h y env acc.2).2.1)) acc).1.lnode.lookup x = none by
+    have := this order (st, c) wf hh (Or.inl ⟨hxo, hx⟩)
+    simpa [State.modNode] using this
+  intro order
+  induction order with
+  | nil =>
+    intro acc _ _ hor
+    rcases hor with ⟨hmem, _⟩ | hnone
+    · cases hmem
+    · simpa using hnone
+  | cons y ys ih =>
+    intro acc wfa hha hor
+    simp only [List.foldl_cons]
+    have hf := deleteSess_frame acc.1 wfa h y env acc.2
+    by_cases hyx : y = x
+    · subst hyx
+      apply ih _ hf.1
+      · unfold State.deleteSess
+        simp only []
+        split
+        · exact hha
+        · split
+          · simpa [State.modNode] using hha
+          · rename_i s hl
+            generalize s.close acc.2 = R
+            obtain ⟨s', c', rs⟩ := R
+            simpa [State.modNode] using hha
+      · right
+        rcases hor with ⟨_, hmem⟩ | hnone
+        · exact deleteSess_sweeps acc.1 wfa h y env acc.2 hmem
+        · exact deleteSess_none_stays acc.1 h y env acc.2 hnone
+    · have hne : x ≠ y := fun hc => hyx hc.symm
+      rcases hor with ⟨hmem, hset⟩ | hnone
+      · have hmem' : x ∈ ys := by
+          rcases List.mem_cons.mp hmem with e | e
+          · exact absurd e hne
+          · exact e
+        obtain ⟨k1, k2⟩ := deleteSess_nodeSet acc.1 h y x env acc.2 hha hset hne
+        exact ih _ hf.1 k2 (Or.inl ⟨hmem', k1⟩)
+      · have : (acc.1.deleteSess h y env acc.2).1.lnode.lookup x = none := by rw [hf.2 x hne]; exact hnone
+        apply ih _ hf.1 _ (Or.inr this)
+        unfold State.deleteSess
+        simp only []
+        split
+        · exact hha
+        · split
+          · simpa [State.modNode] using hha
+          · rename_i s hl
+            generalize s.close acc.2 = R
+            obtain ⟨s', c', rs⟩ := R
+            simpa [State.modNode] using hha
+
 /-! ### non-vacuity: two sessions with coinciding rule ids and control-plane SEIDs -/
 example :
     let st0 : State := {}
